@@ -8,33 +8,63 @@ Case:  nops op...  nans ans...  decision...      (see harness/h_c18.cpp, coq/C18
 Observation: "k blocked_ pending_" at every scheduling point (k = step that follows), "30 s" arrival,
   "20 s" callback entry, "21 a" callback exit; k = 0 is the idle main flow (last record = final state).
 
+OS-level cases:  -m mask  nops op...  nans ans...  [n1]  decision...     (negative first number)
+  the schedule runs inside a real Application::main(); an arrival is raise(SIGINT/SIGTERM/SIGUSR1 for s = 1/2/3) through the
+  handlers main() installed (signal mask cleared first: the disposition alone decides).  m = 1 first main(), m = 2 second
+  main() after an empty first run, m = 3 first main() with the first n1 decisions then a second main() (same flow) with the
+  rest; mask bit s-1 = signal s was SIG_IGN before the first main().  Extra records: "40 d1 d2 d3" (dispositions: 0 default,
+  1 Application::sigHandler, 2 ignored, 3 other) after every "k blocked_ pending_"; after "30 s": "31 s" discarded by the OS,
+  "32 s" not a registered signal, "33 s" no handler installed (not raised); "41 d1 d2 d3" after main() returned.
+
 The oracle re-does the ghost accounting of the property on the implementation's trace alone (python, independent of
 the Coq model): every arrival is a token; where it is (own activation / slot / deferred activation / fate) is
-followed through the observed values of blocked_ and pending_ and the observed callback invocations.
+followed through the observed values of blocked_ and pending_ and the observed callback invocations.  For OS-level cases
+it additionally follows which sigHandler activations are in progress and judges the observed dispositions and the
+arrivals the OS discarded against that.
 """
 import random
 
 PID = 'C18'
 HARNESS = 'h_c18'
-MODEL_MODULE = 'V.C18.Model'
+MODEL_MODULE = 'V.C18.Disp'
 READY = True
 ALLOWED_AXIOMS = []
 RULE = ('cases = (main flow over block/unblock(false)/unblock(true)/shutdown with never more unblocks than blocks in a prefix, '
-        'callback answers, schedule = one decision per atomic step: step or arrival of signal s); quick = EXHAUSTIVE enumeration '
-        '(depth-first over a python step simulator) of all schedules with <= 3 operations and <= 3 arrivals, and <= 4 operations and '
-        '<= 2 arrivals, of signal numbers {1,2} with both callback answers (thorough: <= 5 ops / 3 arrivals, <= 3 ops / 4 arrivals, '
-        '3 signal numbers), plus fixed regression shapes and random long schedules; non-trivial = at least one arrival; '
-        'distinct = distinct case tuples')
+        'callback answers, schedule = one decision per atomic step: step or arrival of signal s); two families: DIRECT (an arrival is a '
+        'synchronous processSignal(s) call at the yield point; covers re-entry of the same number) and OS-LEVEL (negative first number: the '
+        'schedule runs inside a real Application::main() and an arrival is raise(SIGINT/SIGTERM/SIGUSR1) through the handlers main() '
+        'installed, mask cleared; dispositions printed at every scheduling point; first main() / second main() / two runs on one object; '
+        'optionally some numbers ignored by the environment before main()). quick = enumeration (depth-first over a python step simulator) '
+        'of all DIRECT schedules with <= 3 operations and <= 3 arrivals, and <= 4 operations and <= 2 arrivals, of signal numbers {1,2} with '
+        'both callback answers; all OS-LEVEL schedules (first main()) with <= 3 operations and <= 3 arrivals and <= 4 / <= 2 of {1,2}, <= 2/2 inside a second '
+        'main() and with number 1 environment-ignored, and two-run cases (every <= 2 ops / <= 2 arrivals first run x every single arrival '
+        'in the second); plus fixed regression shapes, a targeted OS-level stream (arrival while the application holds a block or a '
+        'callback runs, release, later arrival of the same and of another number, stop answers, second main()) and random long schedules '
+        '(thorough: DIRECT <= 5 ops / 3 arrivals, <= 3 ops / 4 arrivals, 3 numbers; OS-LEVEL <= 4 ops / 3 arrivals, <= 3 ops / 4 arrivals, '
+        '3 numbers); non-trivial = at least one arrival; distinct = distinct case tuples')
 TRUSTED_BASE = ['__sync_fetch_and_add/sub/and are atomic with respect to signal handlers (one atomic step each)',
                 'signal handlers nest LIFO on the delivering thread; a synchronous call of processSignal at a yield point is what an '
                 'interrupting handler does there (verif hook 2074af4: POTASSCO_VERIF_YIELD between the atomic steps)',
-                'props/C18.py oracle (ghost accounting re-done on the implementation trace) and its schedule enumerator']
+                'OS-level cases: raise() delivers synchronously on the calling thread; the harness clears the signal mask before every '
+                'raise, so the OS calls the handler iff the disposition is the handler and discards the signal iff it is SIG_IGN '
+                '(the no-mask semantics of Windows / System V signal() that sigHandler is written for; under the BSD semantics of '
+                'glibc signal() the kernel would additionally hold a same-number arrival pending until its handler returns); '
+                'sigaction(sig, 0, &old) reports the disposition; the two signal() calls of sigHandler have no yield point, so the '
+                'correspondence never interrupts sigHandler between its entry and signal(sig,SIG_IGN) or between the return of '
+                'processSignal and signal(sig,sigHandler) (the theorems do quantify over such interruptions)',
+                'props/C18.py oracle (ghost accounting and handler-in-progress tracking re-done on the implementation trace) and its '
+                'schedule enumerator']
 ASSUMPTIONS = ['main flow well nested (never more unblockSignals than blockSignals/shutdown in a prefix)',
                'onSignal itself does not call block/unblockSignals; its answer is arbitrary data',
                'the Windows alarm thread (a second thread calling processSignal) is outside the model',
                'when arrivals interrupt one another between the test and the write of pending_, the later write wins '
                '(the property text allows "the first" only for non-interrupting arrivals); after a callback answered stop '
-               'signals stay blocked for good and a deferred delivery may be re-queued or discarded']
+               'signals stay blocked for good and a deferred delivery may be re-queued or discarded',
+               'OS level: the disposition alone decides what the OS does with an arrival (no signal mask, no SA_RESETHAND); an arrival of a '
+               'registered number whose disposition is still the default action is outside the model (it cannot happen once main() has '
+               'installed: c18_os_dispositions); signals that arrive between two runs of main() are outside the property (no running '
+               'application object); after a stop answer the oracle does not judge dispositions / discarded arrivals for the rest of that run '
+               '(the model does, through the correspondence)']
 
 # codes: 1 inc 2 cb-enter 3 cb-exit 4 test 5 write 6 dec | 7 block 8 unblock-dec 9 take 10 clear | 0 idle
 
@@ -60,10 +90,53 @@ def decode(c):
     return list(ops), list(ans), list(r[1 + m:])
 
 
+def is_os(c):
+    return bool(c) and c[0] < 0
+
+
+def enc_os(m, mask, ops, answers, ds1, ds2=None):
+    """m = 1, 2: ds1 is the schedule; m = 3: ds1 for the first main(), ds2 for the second"""
+    d1 = list(ds1)
+    while d1 and d1[-1] == 0:
+        d1.pop()
+    head = [-m, mask, len(ops)] + list(ops) + [len(answers)] + list(answers)
+    if m != 3:
+        return head + d1
+    d2 = list(ds2 or [])
+    while d2 and d2[-1] == 0:
+        d2.pop()
+    return head + [len(d1)] + d1 + d2
+
+
+def decode_os(c):
+    """-> (m, mask, ops, ans, ds1, ds2) or None if the harness/model answer -3"""
+    if len(c) < 3 or c[0] < -3:
+        return None
+    m, mask = -c[0], c[1]
+    ops, ans, ds = decode(c[2:])
+    if m != 3:
+        return m, mask, ops, ans, ds, []
+    n1 = max(ds[0], 0) if ds else 0
+    return m, mask, ops, ans, ds[1:1 + n1], ds[1 + n1:]
+
+
+def pre_of(mask):
+    return set(i for i in (1, 2, 3) if (mask >> (i - 1)) & 1)
+
+
 OPN = {1: 'Block', 2: 'Unblock(false)', 3: 'Unblock(true)', 4: 'Shutdown'}
+OSM = {1: 'first main()', 2: 'second main() after an empty run', 3: 'first main() then second main() with the same flow'}
 
 
 def describe(c):
+    if is_os(c):
+        t = decode_os(c)
+        if t is None:
+            return 'malformed OS-level case %s' % c
+        m, mask, ops, ans, d1, d2 = t
+        return ('OS-level (raise through the handlers installed by main()): %s; ignored before main()=%s flow=[%s] answers=%s '
+                'decisions=%s%s' % (OSM[m], sorted(pre_of(mask)), ', '.join(OPN.get(o, '?%d' % o) for o in ops),
+                                    ['continue' if a else 'stop' for a in ans], d1, (' second run decisions=%s' % d2) if m == 3 else ''))
     ops, ans, ds = decode(c)
     arr = ['#%d:sig%d' % (i, d) for i, d in enumerate(ds) if d != 0]
     return 'flow=[%s] answers=%s arrivals(at scheduling point)=[%s] decisions=%s' % (
@@ -114,8 +187,15 @@ def sim_step(st, ans):
     return (b - 1, p, (2 if o == 3 else 1) if b == 1 else 0, ops[1:], ())
 
 
-def enumerate_schedules(ops, max_arr, sigs, answers_free=True, limit=None):
-    """all (answers, decisions) of complete runs of the flow with at most max_arr arrivals"""
+def in_progress(st):
+    """signal numbers of the sigHandler activations in progress (OS-level modes: every non-deferred activation)"""
+    return set(f[0] for f in st[4] if not f[2])
+
+
+def enumerate_schedules(ops, max_arr, sigs, answers_free=True, limit=None, os_pre=None):
+    """all (answers, decisions) of complete runs of the flow with at most max_arr arrivals;
+    os_pre = set of numbers ignored before main(): OS-level arrivals (an arrival of a number that is ignored - before main()
+    or because its handler is in progress - is discarded and changes nothing)"""
     out = []
     ops = tuple(ops)
 
@@ -126,7 +206,10 @@ def enumerate_schedules(ops, max_arr, sigs, answers_free=True, limit=None):
         if left > 0:
             for s in sigs:
                 b, p, mpc, o, stack = st
-                dfs((b, p, mpc, o, ((s, 1, False),) + stack), left - 1, ds + [s], ans)
+                if os_pre is not None and (s in os_pre or s in in_progress(st) or s not in (1, 2, 3)):
+                    dfs(st, left - 1, ds + [s], ans)
+                else:
+                    dfs((b, p, mpc, o, ((s, 1, False),) + stack), left - 1, ds + [s], ans)
         if k == 0:
             out.append((list(ans), list(ds)))
             return
@@ -138,6 +221,32 @@ def enumerate_schedules(ops, max_arr, sigs, answers_free=True, limit=None):
             dfs(sim_step(st, True), left, ds + [0], ans)
     dfs((0, 0, 0, ops, ()), max_arr, [], [])
     return out
+
+
+def complete(ops, ds, ans, os_pre=None):
+    """decisions ds followed by as many 0 as the run needs to become idle (answers: ans, then continue)"""
+    st = (0, 0, 0, tuple(ops), ())
+    ai = 0
+    out = []
+    i = 0
+    while True:
+        d = ds[i] if i < len(ds) else 0
+        k = sim_code(st)
+        if d == 0 and k == 0:
+            return out     # the run ends at the idle point (later decisions are never consumed)
+        i += 1
+        out.append(d)
+        if d != 0:
+            b, p, mpc, o, stack = st
+            if os_pre is not None and (d in os_pre or d in in_progress(st) or d not in (1, 2, 3)):
+                continue
+            st = (b, p, mpc, o, ((d, 1, False),) + stack)
+            continue
+        a = True
+        if k == 3:
+            a = bool(ans[ai]) if ai < len(ans) else True
+            ai += 1
+        st = sim_step(st, a)
 
 
 def flows(maxlen, alphabet=(1, 2, 3)):
@@ -178,7 +287,13 @@ def parse(obs):
 
 def account(c, obs):
     """returns (signatures, stats)"""
+    if is_os(c):
+        return account_os(c, obs)
     ops, _, _ = decode(c)
+    return account_ops(ops, obs)
+
+
+def account_ops(ops, obs):
     ops = [o for o in ops if o in (1, 2, 3, 4)]
     ev = parse(obs)
     sigs = []
@@ -393,11 +508,157 @@ def handover(tok, val, deliver, ev, j, stack, setfate, stats, bad):
         stack.append({'sig': val, 'id': -1, 'deferred': True, 'r': None, 'pc': 1})
 
 
+# ------------------------------------------------------------------------------------------------
+# OS-level cases: dispositions and discarded arrivals, judged from the implementation's trace alone
+# ------------------------------------------------------------------------------------------------
+def parse_os(obs):
+    """-> list of runs; a run = (events, dispositions after main() returned); None if malformed"""
+    runs = []
+    ev = []
+    i, n = 0, len(obs)
+    while i < n:
+        k = obs[i]
+        if 0 <= k <= 10 and i + 6 < n and obs[i + 3] == 40:
+            ev.append(('R', k, obs[i + 1], obs[i + 2], tuple(obs[i + 4:i + 7])))
+            i += 7
+        elif k in (20, 21, 30) and i + 1 < n:
+            ev.append(({20: 'CB', 21: 'CE', 30: 'AR'}[k], obs[i + 1]))
+            i += 2
+        elif k in (31, 32, 33) and i + 1 < n:
+            ev.append(('NOTE', k, obs[i + 1]))
+            i += 2
+        elif k == 41 and i + 3 < n:
+            runs.append((ev, tuple(obs[i + 1:i + 4])))
+            ev = []
+            i += 4
+        else:
+            return None
+    if ev:
+        return None
+    return runs
+
+
+def os_pass(ev, pre, ever, bad, stats):
+    """follows the sigHandler activations in progress through one run and judges dispositions / discarded arrivals;
+    returns the trace without the OS-level records (for the ghost accounting), or None"""
+    plain = []
+    stk = []            # activations in progress, top last: signal id, or None for the nested call of unblockSignals
+    stops = 0           # callbacks that answered stop in this run: from then on signals stay blocked for good and the property
+                        # does not say what becomes of later ones (the model still does: any difference is a correspondence failure)
+    i, n = 0, len(ev)
+
+    def busy():
+        return set(x for x in stk if x is not None)
+    while i < n:
+        e = ev[i]
+        if e[0] != 'R':
+            return None
+        _, k, b, p, dv = e
+        plain += [k, b, p]
+        act = busy()
+        for s_ in (1, 2, 3):
+            got = dv[s_ - 1]
+            want = 2 if (s_ in pre or s_ in act) else 1
+            if got == want:
+                continue
+            if got == 2:
+                if stops == 0:
+                    bad('handler-not-reinstalled' if s_ in ever else 'registered-signal-ignored-without-handler-in-progress')
+                else:
+                    stats['os_ignored_after_stop'] += 1
+            elif got == 1:
+                bad('environment-ignored-signal-got-handler' if s_ in pre else 'signal-not-ignored-during-its-handler')
+            else:
+                bad('handler-not-installed')
+        nxt = ev[i + 1] if i + 1 < n else None
+        if nxt is not None and nxt[0] == 'AR':
+            d = nxt[1]
+            note = ev[i + 2] if i + 2 < n and ev[i + 2][0] == 'NOTE' else None
+            if note is not None:
+                if note[2] != d:
+                    return None
+                if note[1] == 31:
+                    stats['os_discarded'] += 1
+                    if d not in pre and d not in act and stops == 0:
+                        bad('signal-dropped-by-os-while-deliverable')
+                elif note[1] == 33:
+                    bad('handler-not-installed')
+                elif d in (1, 2, 3):
+                    return None
+                del plain[-3:]      # nothing happened to the application: the same scheduling point is recorded again
+                i += 3
+                continue
+            if d not in (1, 2, 3):
+                return None
+            if d in pre or d in act:
+                bad('ignored-signal-reached-the-application')
+            plain += [30, d]
+            stk.append(d)
+            ever.add(d)
+            stats['os_handled'] += 1
+            i += 2
+            continue
+        # the step k executes
+        if k == 0:
+            if i != n - 1:
+                return None
+            break
+        if 1 <= k <= 6 and not stk:
+            if k != 1:
+                return None
+            stk.append(None)        # processSignal(pend) called by unblockSignals: no sigHandler around it
+        j = i + 1
+        if nxt is not None and nxt[0] in ('CB', 'CE'):
+            plain += [20 if nxt[0] == 'CB' else 21, nxt[1]]
+            j = i + 2
+            if k == 3 and nxt[0] == 'CE' and nxt[1] == 0 and stk:
+                stk.pop()           # stop: processSignal returns at once, ~ScopedSig runs
+                stops += 1
+        if k == 6 and stk:
+            stk.pop()
+        i = j
+    if stk:
+        bad('activation-never-finished')
+    return plain
+
+
+def account_os(c, obs):
+    stats = {'arrivals': 0, 'delivered': 0, 'deferred': 0, 'remembered': 0, 'discarded': 0, 'dropped': 0, 'overwritten': 0, 'stops': 0,
+             'os_discarded': 0, 'os_handled': 0, 'os_ignored_after_stop': 0}
+    sigs = []
+
+    def bad(x):
+        if x not in sigs:
+            sigs.append(x)
+    t = decode_os(c)
+    if t is None:
+        return ([] if obs == [-3] else ['trace-malformed']), stats
+    m, mask, ops, _, _, _ = t
+    runs = parse_os(obs)
+    if runs is None or len(runs) != (2 if m == 3 else 1):
+        return ['trace-malformed'], stats
+    pre = pre_of(mask)
+    ever = set()
+    for ev, _after in runs:       # what main() leaves behind when it returns is not judged (the next run's records are)
+        plain = os_pass(ev, pre, ever, bad, stats)
+        if plain is None:
+            return sigs + ['trace-malformed'], stats
+        s2, st2 = account_ops(ops, plain)
+        for x in s2:
+            bad(x)
+        for k_, v in st2.items():
+            stats[k_] += v
+    return sigs, stats
+
+
 def oracle(c, obs):
     return account(c, obs)[0]
 
 
 def nontrivial(c, obs):
+    if is_os(c):
+        t = decode_os(c)
+        return t is not None and any(d != 0 for d in t[4] + t[5])
     return any(d != 0 for d in decode(c)[2])
 
 
@@ -415,6 +676,62 @@ FIXED = [
     ([], [0], [1, 0, 0, 0, 2, 1], 'stop-blocks-for-good'),
     ([1], [], [0, 1, 0, 0, 2, 0, 0, 0, 0], 'interrupted-test-write-overwrite'),
 ]
+
+
+FIXED_OS = [
+    # (m, mask, flow, answers, decisions run 1, decisions run 2, kind)
+    (1, 0, [1, 3], [], [0, 1, 0, 0, 0, 0, 0, 0, 0, 0, 0, 0, 0, 1, 0, 0, 0, 0, 2], None, 'os-blocked-arrival-then-same-and-other'),
+    (1, 0, [], [], [1, 0, 0, 2, 0, 0, 1], None, 'os-arrival-during-callback-same-number-discarded'),
+    (1, 0, [], [0], [1, 0, 0, 0, 1, 0, 0, 0, 0, 2], None, 'os-stop-answer-then-later-arrivals'),
+    (1, 1, [], [], [1, 2, 0, 0, 0, 0, 1], None, 'os-environment-ignored-signal'),
+    (2, 0, [1, 3], [], [0, 1, 0, 0, 0, 0, 0, 0, 0, 0, 0, 0, 0, 1], None, 'os-second-main'),
+    (3, 0, [1, 3], [], [0, 1], [1, 0, 0, 0, 0, 2], 'os-two-runs-blocked-arrival-in-first'),
+    (3, 2, [1, 2], [], [0, 1, 2], [0, 2, 1], 'os-two-runs-ignored-and-dropped'),
+    (1, 0, [1, 3], [], [0, 4, 1], None, 'os-unregistered-number'),
+]
+
+
+def os_targeted(rnd, count):
+    """arrival of a while the application holds a block / while a callback runs (any scheduling point of the flow), then the run
+    goes on to the idle point, then the SAME number arrives, then another one; in every OS-level mode; some callbacks answer stop"""
+    out = []
+    flows_ = [[1, 3], [1, 2], [1, 1, 3, 3], [], [1, 3, 1, 3], [1, 1, 2, 3], [4], [1, 3, 4]]
+    for _ in range(count):
+        f = rnd.choice(flows_)
+        a = rnd.randint(1, 3)
+        b = rnd.choice([x for x in (1, 2, 3) if x != a])
+        mask = 0 if rnd.random() < 0.8 else rnd.randint(1, 7)
+        pre = pre_of(mask)
+        ans = [1 if rnd.random() < 0.8 else 0 for _ in range(rnd.randint(0, 4))]
+        base = complete(f, [], ans, pre)
+        ds = list(base[:rnd.randint(0, len(base))]) + [a]
+        if rnd.random() < 0.5:                      # a second arrival while the first one's handler / the block is in progress
+            ds = complete(f, ds, ans, pre)
+            cut = rnd.randint(max(len(ds) - 6, 0), len(ds))
+            ds = ds[:cut] + [rnd.choice([a, b])]
+        ds = complete(f, ds, ans, pre) + [a]        # later arrival of the same number at the idle point
+        ds = complete(f, ds, ans, pre) + [b]        # and of another number
+        ds = complete(f, ds, ans, pre)
+        m = rnd.choice([1, 1, 2, 3])
+        if m == 3:
+            cut = rnd.randint(0, len(ds))
+            d1 = complete(f, ds[:cut], ans, pre)
+            d2 = [a, 0, 0, 0, 0, b] if rnd.random() < 0.5 else ds[cut:]
+            out.append((enc_os(3, mask, f, ans, d1, d2), {'kind': 'os-targeted-two-runs'}))
+        else:
+            out.append((enc_os(m, mask, f, ans, ds), {'kind': 'os-targeted'}))
+    return out
+
+
+def random_os_case(rnd, nops, narr, nsig):
+    c = random_case(rnd, nops, narr, nsig)
+    ops, ans, ds = decode(c)
+    m = rnd.choice([1, 1, 2, 3])
+    mask = 0 if rnd.random() < 0.8 else rnd.randint(1, 7)
+    if m == 3:
+        cut = rnd.randint(0, len(ds))
+        return enc_os(3, mask, ops, ans, ds[:cut], ds[cut:])
+    return enc_os(m, mask, ops, ans, ds)
 
 
 def random_case(rnd, nops, narr, nsig):
@@ -439,16 +756,42 @@ def gen(seed, tier):
     out = []
     for f, a, d, kind in FIXED:
         out.append((enc(f, a, d), {'kind': kind}))
+    for m, mask, f, a, d1, d2, kind in FIXED_OS:
+        out.append((enc_os(m, mask, f, a, d1, d2), {'kind': kind}))
     if tier == 'quick':
         spec = [(3, 3, (1, 2)), (4, 2, (1, 2))]
-        nrand = 3000
+        # OS-level: (max ops, max arrivals, numbers, mode, mask)
+        spec_os = [(3, 3, (1, 2), 1, 0), (4, 2, (1, 2), 1, 0), (2, 2, (1, 2), 2, 0), (2, 2, (1, 2), 1, 1)]
+        nrand, nrand_os, ntarget = 3000, 2000, 1500
     elif tier == 'thorough':
         spec = [(5, 3, (1, 2)), (3, 4, (1, 2)), (3, 3, (1, 2, 3)), (6, 1, (1,))]
-        nrand = 200000
+        spec_os = [(4, 3, (1, 2), 1, 0), (3, 4, (1, 2), 1, 0), (3, 3, (1, 2, 3), 1, 0), (3, 3, (1, 2), 2, 0), (3, 2, (1, 2, 3), 1, 5)]
+        nrand, nrand_os, ntarget = 200000, 60000, 20000
     else:
         spec = [(2, 2, (1, 2))]
-        nrand = 3000
+        spec_os = [(2, 2, (1, 2), 1, 0)]
+        nrand, nrand_os, ntarget = 3000, 2000, 1500
     seen = set()
+    for (maxops, maxarr, sg, m, mask) in spec_os:
+        for f in flows(maxops):
+            for ans, ds in enumerate_schedules(f, maxarr, sg, os_pre=pre_of(mask)):
+                c = enc_os(m, mask, f, ans, ds)
+                t = tuple(c)
+                if t not in seen:
+                    seen.add(t)
+                    out.append((c, {'kind': 'os-exhaustive-ops%d-arr%d-mode%d-mask%d' % (maxops, maxarr, m, mask)}))
+    # two runs of main() on one object: every schedule of the first run (<= 2 ops, <= 2 arrivals), then every single arrival in the second
+    for f in flows(2):
+        for ans, ds in enumerate_schedules(f, 2, (1, 2), os_pre=set()):
+            for ans2, ds2 in enumerate_schedules(f, 1, (1, 2), answers_free=False, os_pre=set()):
+                c = enc_os(3, 0, f, ans + ans2, ds, ds2)
+                t = tuple(c)
+                if t not in seen:
+                    seen.add(t)
+                    out.append((c, {'kind': 'os-exhaustive-two-runs'}))
+    out += os_targeted(rnd, ntarget)
+    for _ in range(nrand_os):
+        out.append((random_os_case(rnd, rnd.randint(0, 8), rnd.randint(1, 6), rnd.choice([2, 3, 3, 4])), {'kind': 'os-random-long'}))
     for (maxops, maxarr, sg) in spec:
         for f in flows(maxops):
             for ans, ds in enumerate_schedules(f, maxarr, sg):
@@ -469,7 +812,50 @@ def gen(seed, tier):
     return out
 
 
+def shrink_os(case, fails):
+    t = decode_os(case)
+    if t is None:
+        return case
+    m, mask, ops, ans, d1, d2 = t
+
+    def mk(m_, mask_, ops_, ans_, a_, b_):
+        return enc_os(m_, mask_, ops_, ans_, a_, b_ if m_ == 3 else None)
+    if m == 3 and fails(mk(1, mask, ops, ans, d1, None)):
+        m, d2 = 1, []
+    if m == 2 and fails(mk(1, mask, ops, ans, d1, None)):
+        m = 1
+    if mask and fails(mk(m, 0, ops, ans, d1, d2)):
+        mask = 0
+    changed = True
+    while changed:
+        changed = False
+        for which in (1, 0):
+            ds = [d1, d2][which]
+            for i in range(len(ds) - 1, -1, -1):
+                for t_ in ([ds[:i] + [0] + ds[i + 1:]] if ds[i] != 0 else []) + [ds[:i] + ds[i + 1:]]:
+                    cand = mk(m, mask, ops, ans, t_ if which == 0 else d1, t_ if which == 1 else d2)
+                    if fails(cand):
+                        ds = t_
+                        if which == 0:
+                            d1 = t_
+                        else:
+                            d2 = t_
+                        changed = True
+                        break
+        for i in range(len(ops) - 1, -1, -1):
+            t_ = ops[:i] + ops[i + 1:]
+            if fails(mk(m, mask, t_, ans, d1, d2)):
+                ops = t_
+                changed = True
+        if ans and fails(mk(m, mask, ops, ans[:-1], d1, d2)):
+            ans = ans[:-1]
+            changed = True
+    return mk(m, mask, ops, ans, d1, d2)
+
+
 def shrink(case, fails):
+    if is_os(case):
+        return shrink_os(case, fails)
     ops, ans, ds = decode(case)
     changed = True
     while changed:
@@ -497,6 +883,18 @@ def shrink(case, fails):
 
 
 def mutate(case, rnd):
+    if is_os(case):
+        t = decode_os(case)
+        if t is None:
+            return []
+        m, mask, ops, ans, d1, d2 = t
+        res = []
+        for _ in range(8):
+            a, b = list(d1) + [0] * 4, list(d2) + [0] * 2
+            tgt = a if (m != 3 or rnd.random() < 0.6) else b
+            tgt[rnd.randrange(len(tgt))] = rnd.randint(0, 3)
+            res.append(enc_os(m, mask, ops, ans, a, b if m == 3 else None))
+        return res
     ops, ans, ds = decode(case)
     res = []
     for _ in range(8):
@@ -512,17 +910,34 @@ LEVEL_TEXT = ('Machine-checked invariant proofs (Coq) over a small-step transiti
               'every callback answer list and every schedule of arrivals - no callback while the application holds a block or another '
               'callback runs; an arrival that finds blocked_=0 is delivered in its own activation; one slot; every arrival is in exactly '
               'one place (token conservation: never lost, never twice; the remembered one goes to the nested processSignal or is dropped at '
-              'the take of the next outermost release); the nesting count is restored. The model is tied to the code by differential '
-              'correspondence of the full step trace (extracted model vs. sanitizer build of the real class driven through the yield hook), '
-              'exhaustively for all schedules with <= 3 operations and <= 2 arrivals, and an independent trace oracle.')
+              'the take of the next outermost release); the nesting count is restored. Layered around it (coq/C18/Disp.v) the OS-level '
+              'entry point: dispositions as Application::sigHandler (signal(sig,SIG_IGN) ... signal(sig,sigHandler) in every return path) '
+              'and the installation loop of Application::main (ignored stays ignored, nothing restored, any number of runs) manipulate them; '
+              'proved for every schedule of OS-level arrivals and steps, including interruptions of sigHandler itself: the ignored registered '
+              'numbers are exactly those with a handler activation in progress (plus those the environment had ignored), so at quiescence '
+              'every handler is installed whatever blocked_ is; the OS discards an arrival iff a handler for the same number is in progress, '
+              'every other arrival reaches processSignal and is a token of the exactly-once accounting; with blocked_=0 it is in the callback '
+              'after its own three steps. The model is tied to the code by differential correspondence of the full step trace (extracted '
+              'model vs. sanitizer build of the real class driven through the yield hook; OS-level cases through real raise() inside a real '
+              'Application::main() with the dispositions read back by sigaction at every scheduling point), exhaustively for all schedules '
+              'with <= 3 operations and <= 3 arrivals in both families, and an independent trace oracle.')
 LEVEL_NOTE = ('Trusted: Coq kernel/vm_compute, extraction+driver (sample cross-checked by vm_compute), harness + yield hook, python oracle; '
-              'atomicity of the __sync builtins and LIFO nesting of handlers on one thread are modelling assumptions; the Windows alarm '
-              'thread is outside the model. The defect found (read-then-clear of pending_ in unblockSignals loses a signal) was repaired '
-              '(55f6ce1); the pre-repair model is kept and refuted by c18_lost_refuted_before_repair.')
+              'atomicity of the __sync builtins, LIFO nesting of handlers on one thread and the no-mask signal semantics (mask cleared before '
+              'each raise) are modelling assumptions; sigHandler has no yield point around its two signal() calls, so interruptions there are '
+              'covered by the theorems only; the Windows alarm thread is outside the model. The defect found (read-then-clear of pending_ in '
+              'unblockSignals loses a signal) was repaired (55f6ce1); the pre-repair model is kept and refuted by c18_lost_refuted_before_repair.')
 TECHNIQUE = 'Coq invariant proofs over a small-step interleaving model + differential correspondence of step traces with the implementation'
 DESIGN_REF = 'DESIGN.md section 5, C18'
 
+# "exhaustive" refers to the bounded schedule spaces named below (every case of these spaces is generated and run); the targeted and
+# random streams are samples.  Not swept: interruptions inside sigHandler around its signal() calls (no yield point), more than 3 (4)
+# arrivals, more than two runs of main(), masks other than {}, {1} ({1,3} in thorough).
 EXHAUSTIVE = {'quick': True, 'thorough': True}
-EXHAUSTIVE_SPACE = ('quick: every schedule (arrival decisions at every atomic step, both callback answers) of every well-nested main flow with <= 3 operations and '
-                    '<= 2 arrivals of 2 signal numbers is enumerated; thorough: <= 5 ops/3 arrivals and <= 3 ops/4 arrivals, 3 signal numbers, plus random long schedules. '
+EXHAUSTIVE_SPACE = ('quick: every schedule (arrival decisions at every yield point, both callback answers) of every well-nested main flow with <= 3 operations and '
+                    '<= 3 arrivals (<= 4 operations and <= 2 arrivals) of 2 signal numbers, in the DIRECT family (processSignal called at the yield point) and in the '
+                    'OS-LEVEL family (raise() inside the first main(), no number environment-ignored); OS-LEVEL <= 2 ops / <= 2 arrivals inside a second main() and '
+                    'with number 1 environment-ignored; two runs: every <= 2 ops / <= 2 arrivals first run x every single arrival in the second run. '
+                    'thorough: DIRECT <= 5 ops/3 arrivals, <= 3 ops/4 arrivals, 3 signal numbers; OS-LEVEL <= 4 ops/3 arrivals, <= 3 ops/4 arrivals, <= 3 ops/3 arrivals of '
+                    '3 numbers, <= 3/3 in a second main(), <= 3/2 with numbers 1 and 3 environment-ignored. NOT enumerated: interruptions of sigHandler between its entry and '
+                    'signal(sig,SIG_IGN) / between the return of processSignal and signal(sig,sigHandler) (no yield point there). '
                     'The unbounded claim is carried by the theorems, not by this enumeration.')
